@@ -129,6 +129,8 @@ def random_script(rng, n, wrap_octets=False):
                 steps.append(ev("report", t=now))
     now += 1000
     steps.append(ev("report", t=now))
+    if rng.random() < 0.5:          # the RTCP writer refuses the reports of some ticks
+        steps = [dict(st, wfail=True) if st["a"] == "report" and rng.random() < 0.25 else st for st in steps]
     return wrap(latest, rng.choice([0, 0, -3000, -1, 12345]), rng.choice([0, 0, 1]), steps)
 
 
